@@ -470,10 +470,10 @@ func c04Scenarios(thorough bool) []c04Scn {
 		c04ScnDKLs23("softspoken", "a2", a, []ID{1, 3}, 40, 400).rel(8),
 		c04ScnDKLs23("softspoken", "a3", a, ia, 10, 400),
 		c04ScnDKLs23("softspoken", "n2", n, []ID{2, 3}, 12, 300).rel(4),
-		c04ScnBoldyreva("a2", a, []ID{1, 2}, 8),
-		c04ScnBoldyreva("a3", a, ia, 8),
+		c04ScnBoldyreva("a2", a, []ID{1, 2}, 6),
+		c04ScnBoldyreva("a3", a, ia, 5),
 		c04ScnBoldyreva("n2", n, []ID{1, 2}, 8).rel(6),
-		c04ScnBoldyreva("ns3", ns, ib, 6).rel(9),
+		c04ScnBoldyreva("ns3", ns, ib, 5).rel(9),
 	}
 	if thorough {
 		s = append(s,
